@@ -136,3 +136,14 @@ def ctor_positive(rps: int) -> int:
     except ValueError:
         return -1
     return p._delta
+
+
+#@ C19 quick optional | constructor with a FLOAT rate 0.5..1000: interval == floor(1e9 / rps) (>= 1 ns, never shorter than 1/rps - 1 ns); CrossHair treats floats as reals
+def ctor_float(rps: float) -> int:
+    """
+    pre: 0.5 <= rps <= 1000.0
+    post: __return__ >= 1
+    post: __return__ * rps <= 1_000_000_000.0
+    post: (__return__ + 1) * rps > 1_000_000_000.0
+    """
+    return RPSPolicer(rps)._delta
